@@ -328,6 +328,101 @@ func (x *Exec) specCall(c *SpecCtx, e *Expr) (*Val, error) {
 			return scalar(mk("to_real", SReal, as[0].T), nil), nil
 		}
 		return as[0], nil
+	case "ext":
+		// ext("pkg.Func", args...): the uninterpreted function standing for a deterministic external function
+		// (first result leaf; use ext2("key", "leaf", args...) for other leaves)
+		if len(e.Args) < 1 || e.Args[0].Kind != "str" {
+			return nil, fmt.Errorf("ext(\"key\", args...)")
+		}
+		key := e.Args[0].Name
+		var ts []*Term
+		for _, a := range e.Args[1:] {
+			v, err := x.specEval(c, a)
+			if err != nil {
+				return nil, err
+			}
+			var rec func(v *Val) error
+			rec = func(v *Val) error {
+				switch v.K {
+				case VScalar:
+					ts = append(ts, v.T)
+				case VStruct, VTuple, VSlice, VFloat:
+					for _, f := range v.F {
+						if err := rec(f); err != nil {
+							return err
+						}
+					}
+				case VUnit:
+				default:
+					return fmt.Errorf("ext: non-SMT argument")
+				}
+				return nil
+			}
+			if err := rec(v); err != nil {
+				return nil, err
+			}
+		}
+		if rs, ok := extResultSorts[key]; ok {
+			name := "ext." + key
+			if rs.leaf != "" {
+				name += "#" + rs.leaf
+			}
+			return scalar(x.ufApp(name, rs.s, ts...), rs.typ), nil
+		}
+		fo := x.findExtFunc(key)
+		if fo == nil {
+			return nil, fmt.Errorf("ext: cannot resolve %s among the imports of the loaded packages", key)
+		}
+		res := fo.Type().(*types.Signature).Results()
+		if res.Len() == 0 {
+			return nil, fmt.Errorf("ext: %s has no result", key)
+		}
+		prefix := ""
+		rt := res.At(0).Type()
+		if res.Len() > 1 {
+			prefix = "$0"
+		}
+		v := buildVal(rt, prefix, func(path string, s Sort, _ types.Type) *Term {
+			name := "ext." + key
+			if path != "" {
+				name += "#" + path
+			}
+			return x.ufApp(name, s, ts...)
+		})
+		return v, nil
+	case "unixSeconds":
+		as, err := evalArgs()
+		if err != nil {
+			return nil, err
+		}
+		return intVal(mk("div", SInt, tArith("-", as[0].T, x.timeEpoch()), intLit(1000000000))), nil
+	case "hexOf":
+		as, err := evalArgs()
+		if err != nil {
+			return nil, err
+		}
+		return scalar(x.ufApp("hex", SStr, as[0].T), types.Typ[types.String]), nil
+	case "sha256Of":
+		as, err := evalArgs()
+		if err != nil {
+			return nil, err
+		}
+		return scalar(x.ufApp("sha256", SStr, as[0].T), types.Typ[types.String]), nil
+	case "itoa":
+		as, err := evalArgs()
+		if err != nil {
+			return nil, err
+		}
+		return scalar(x.ufApp("itoa", SStr, as[0].T, intLit(10)), types.Typ[types.String]), nil
+	case "funcref":
+		// funcref("ssa function string"): the constant a func value of that function is modelled by
+		if len(e.Args) != 1 || e.Args[0].Kind != "str" {
+			return nil, fmt.Errorf("funcref(\"name\")")
+		}
+		if f, ok := x.P.funcs[e.Args[0].Name]; ok {
+			return scalar(x.funcConst(f), nil), nil
+		}
+		return scalar(x.D.declareConst("fn."+sanitize(e.Args[0].Name), SAny), nil), nil
 	case "pow":
 		as, err := evalArgs()
 		if err != nil {
@@ -513,4 +608,90 @@ func (x *Exec) errIs(st *State, e, target *Term) *Term {
 	x.axiomsOn["errIs"] = true
 	x.D.declareFun("uf.errIs", []Sort{SErr, SErr}, SBool)
 	return mk("uf.errIs", SBool, e, target)
+}
+
+
+type extSort struct {
+	s    Sort
+	leaf string
+	typ  types.Type
+}
+
+// result sorts of external functions that contracts refer to through ext("key", ...)
+var extResultSorts = map[string]extSort{
+	"net.(IP).IsLoopback":           {SBool, "", types.Typ[types.Bool]},
+	"net.(IP).IsPrivate":            {SBool, "", types.Typ[types.Bool]},
+	"net.(IP).IsLinkLocalUnicast":   {SBool, "", types.Typ[types.Bool]},
+	"net.(IP).IsLinkLocalMulticast": {SBool, "", types.Typ[types.Bool]},
+	"net.(IP).IsMulticast":          {SBool, "", types.Typ[types.Bool]},
+	"net.(IP).IsUnspecified":        {SBool, "", types.Typ[types.Bool]},
+	"net.(IP).IsGlobalUnicast":      {SBool, "", types.Typ[types.Bool]},
+	"net/netip.(Prefix).Contains":   {SBool, "", types.Typ[types.Bool]},
+	"net/url.(*URL).Hostname":       {SStr, "", types.Typ[types.String]},
+	"net/url.(*URL).EscapedPath":    {SStr, "", types.Typ[types.String]},
+	"path.Base":                     {SStr, "", types.Typ[types.String]},
+	"net/url.Parse":                 {SInt, "$0", nil},
+	"strings.Trim":                  {SStr, "", types.Typ[types.String]},
+	"strings.Join":                  {SStr, "", types.Typ[types.String]},
+}
+
+
+// findExtFunc resolves "pkgpath.Func", "pkgpath.(T).M" or "pkgpath.(*T).M" among all packages imported
+// (transitively known through go/types) by the loaded packages.
+func (x *Exec) findExtFunc(key string) *types.Func {
+	var pkgPath, rest string
+	if i := strings.Index(key, ".("); i >= 0 {
+		pkgPath, rest = key[:i], key[i+1:]
+	} else {
+		i := strings.LastIndex(key, ".")
+		if i < 0 {
+			return nil
+		}
+		pkgPath, rest = key[:i], key[i+1:]
+	}
+	var pkg *types.Package
+	seen := map[*types.Package]bool{}
+	var visit func(p *types.Package)
+	visit = func(p *types.Package) {
+		if seen[p] || pkg != nil {
+			return
+		}
+		seen[p] = true
+		if p.Path() == pkgPath {
+			pkg = p
+			return
+		}
+		for _, q := range p.Imports() {
+			visit(q)
+		}
+	}
+	for _, lp := range x.P.Pkgs {
+		visit(lp.Types)
+	}
+	if pkg == nil {
+		return nil
+	}
+	if strings.HasPrefix(rest, "(") {
+		j := strings.Index(rest, ").")
+		if j < 0 {
+			return nil
+		}
+		tn := strings.TrimPrefix(rest[1:j], "*")
+		mn := rest[j+2:]
+		o := pkg.Scope().Lookup(tn)
+		if o == nil {
+			return nil
+		}
+		ms := types.NewMethodSet(types.NewPointer(o.Type()))
+		for i := 0; i < ms.Len(); i++ {
+			if f, ok := ms.At(i).Obj().(*types.Func); ok && f.Name() == mn {
+				return f
+			}
+		}
+		return nil
+	}
+	if f, ok := pkg.Scope().Lookup(rest).(*types.Func); ok {
+		return f
+	}
+	return nil
 }
